@@ -28,6 +28,7 @@ TYPES = {
     'decimalOrDate': ('t:decimalOrDate', 'union', [], ['2.5', '2000-01-01', '7']),
     'unionList': ('t:unionList', 'union', [], ['1 2000-01-01 3', '12', '', '2000-01-01', '5 6']),
     'smallIntList': ('t:smallIntList', 'intlist', [], ['1 2', '', '10']),
+    'boolOrIntList': ('t:boolOrIntList', 'union', [], ['true 0 1', '1 true', '0', 'false 7 true 8', '']),
 }
 # member types of the unions, in declaration order, and a lexical test per member: which member a value belongs to
 UNION_MEMBERS = {
@@ -70,6 +71,7 @@ NAMED_TYPES = '''
  <xs:simpleType name="decimalOrDate"><xs:union memberTypes="xs:decimal xs:date"/></xs:simpleType>
  <xs:simpleType name="unionList"><xs:list itemType="t:intOrDate"/></xs:simpleType>
  <xs:simpleType name="smallIntList"><xs:list itemType="t:smallInt"/></xs:simpleType>
+ <xs:simpleType name="boolOrIntList"><xs:list itemType="t:boolOrInt"/></xs:simpleType>
 '''
 
 # a second schema for the same vocabulary must accept the same instances: map every type to a supertype
@@ -79,7 +81,7 @@ SUPERTYPE = {
     'dateTime': 'string', 'time': 'string', 'anyURI': 'string', 'smallInt': 'integer', 'intList': 'string',
     'intOrDate': 'string', 'intBoolString': 'string', 'integerOrDecimal': 'string', 'shortOrDouble': 'string',
     'boolOrInt': 'string', 'decimalOrName': 'string', 'decimalOrDate': 'string', 'unionList': 'string',
-    'smallIntList': 'string',
+    'smallIntList': 'string', 'boolOrIntList': 'string',
 }
 
 
